@@ -206,9 +206,9 @@ def decorate(rng, t, pool):
 def printable_family():
     """Every printable character in attribute values (alone, doubled, between letters) and in text."""
     trees = []
-    for base in range(32, 127, 12):
+    for base in range(32, 127, 6):
         kids = []
-        for o in range(base, min(base + 12, 127)):
+        for o in range(base, min(base + 6, 127)):
             c = chr(o)
             kids.append(node("c%d" % o, {"x": c, "y": c + c, "z": "a" + c + "b", "w": c + "&" + c}, "t" + c + "t" + c))
         trees.append(node("chars", {"from": str(base)}, None, kids))
@@ -433,7 +433,7 @@ def _run(ctx, corrupt=None):
             ["parse %s" % txt.hex()] + find_cmds(rng, t, 4), {"input": txt, "tree": t})
         ntree += 1
     grown = printable_family()
-    ngrow = 170 if ctx.quick else 6000
+    ngrow = 170 if ctx.quick else 1500
     for i in range(ngrow):
         lv = rng.choice([2, 3, 4, 5, 6, 6])
         t = decorate(rng, grow(rng, shapes, lv, wide=rng.random() < 0.6), rng.sample(TAGS, rng.randint(1, 5)))
@@ -451,7 +451,7 @@ def _run(ctx, corrupt=None):
                                 "max_width": max(max([len(n["kids"]) for _, _, n in chains(t)]) for t in grown),
                                 "max_elements": max(size(t) for t in grown)}
     # (iii) arbitrary bytes: seeds, mutations of seeds, structured and random strings, <= 4 KB; many per job
-    nbytes = 12000 if ctx.quick else 400000
+    nbytes = 12000 if ctx.quick else 150000
     blobs = [s for s in seeds if rng.random() < 0.2]
     blobs += [b"<xi:include href='no_such_file.xml'/>", b"<a><xi:include href=\"no_such_file.xml\"/></a>", b"<xi:include/>", b""]
     while len(blobs) < nbytes:
@@ -484,7 +484,7 @@ def _run(ctx, corrupt=None):
     keys = [keys[j] for j in order]
     if corrupt:
         corrupt(execs, [meta[k] for k in keys])
-    fails, labels, info_v = tlc.validate_execs("T_Xml.tla", "T_Xml.cfg", execs, ctx.workdir, "c32", chunks=8, heap="6g")
+    fails, labels, info_v = tlc.validate_execs("T_Xml.tla", "T_Xml.cfg", execs, ctx.workdir, "c32", chunks=8, heap="4g")
     ctx.add_validation(info_v, len(execs))
     ctx.tick("validate")
     # ---- bookkeeping -------------------------------------------------------------------------------------------
